@@ -315,7 +315,7 @@ def names_in_both():
 def run(res, tier, seed, search):
     quick = tier == "quick"
     maxdim = 4 if quick else 5
-    nrand = 6 if quick else 40
+    nrand = 6 if quick else 120
     if search:
         nrand *= 3
     res.rule = ("per name in both metric tables: real sparse kernel on enc(x), enc(y) (both argument orders) vs real "
@@ -326,7 +326,7 @@ def run(res, tier, seed, search):
                 "x != y and both supports non-empty; distinct = hash of (name, x, y, args)"
                 % (maxdim, sorted(set(STYLES)), DIMS_LARGE))
     rep = Reporter(res)
-    helper_checks(rep, np.random.default_rng([seed, 8]), 1500 if quick else 12000)
+    helper_checks(rep, np.random.default_rng([seed, 8]), 1500 if quick else 30000)
     corpus = os.path.join(VERIF, "corpus", "C08.jsonl")
     if os.path.exists(corpus):
         for l in open(corpus):
